@@ -177,10 +177,11 @@ func MergeReq(h *vsched.H) {
 		k := &reqChild{h: h, idx: i, mode: h.Param(fmt.Sprintf("m%d", i), 0), trig: trig, open: map[string]bool{}, junk: junk}
 		switch i {
 		case 0:
-			k.stored = []*mocrelay.Event{e30, e10}
+			// (two different events share created_at 20; each of them is held by two children)
+			k.stored = []*mocrelay.Event{e30, e20b, e10}
 			k.live = []*mocrelay.Event{l1, l2}
 		case 1:
-			k.stored = []*mocrelay.Event{e30, e20}
+			k.stored = []*mocrelay.Event{e30, e20, e20b}
 			k.live = []*mocrelay.Event{l1, l3}
 		default:
 			k.stored = []*mocrelay.Event{e20b, e10}
